@@ -267,6 +267,16 @@ def main(cli_argv=None, return_args=False):
                 "--truth must be an existent file. Got: {!r}".format(truth_file)
             )
 
+        for files_arg, names_arg, flag in (
+            ("argparse_functions", "argparse_function_names", "argparse-function"),
+            ("classes", "class_names", "class"),
+            ("functions", "function_names", "function"),
+        ):
+            if getattr(args, files_arg) is not None and getattr(args, names_arg) is None:
+                _parser.error(
+                    "--{flag}-name must be given with --{flag}".format(flag=flag)
+                )
+
         return args if return_args else ground_truth(args, truth_file)
     elif command == "sync_properties":
         for fname in "input_filename", "output_filename":
